@@ -2,6 +2,7 @@ import ArgoVerif.Proofs.Rank
 import ArgoVerif.Proofs.XsCtx
 import ArgoVerif.Proofs.Replace
 import ArgoVerif.Proofs.RankConc4
+import ArgoVerif.Proofs.XsLife5
 /-
 Props.C17 — ranks of live execution streams are pairwise distinct; stream life cycle.
 Property theorems only; helper lemmas live in Proofs/Rank.lean and Proofs/XsCtx.lean.
@@ -11,6 +12,9 @@ Part 2 (Model.XsCtx): the native-thread state machine of src/arch/abtd_stream.c.
 Part 3 (Model.Replace): replacing the main scheduler of the running stream (partial: see F7).
 Part 4 (Model.RankConc): the lock scope of rank allocation — concurrent callers at the granularity
   of the spinlock / scan / update steps; the atomicity Part 1 relies on is a theorem here.
+Part 5 (Model.XsLife): the join / cancel / exit / revive / free life cycle as stream.c and thread.c drive it on top of
+  Part 2's context: public state, scheduler request bits, the root thread publishing TERMINATED, any number of
+  sequential life-cycle callers; what Part 2 assumes about its callers is a theorem here.
 -/
 namespace ArgoVerif.Props.C17
 open ArgoVerif ArgoVerif.Model.Rank
@@ -1210,5 +1214,275 @@ example :
   decide
 
 end Conc
+
+/-! ## Part 5 — the life cycle of a secondary stream in stream.c / thread.c (over Part 2's context) -/
+
+namespace Life
+open ArgoVerif.Model.XsCtx ArgoVerif.Model.XsLife
+
+/-- states reachable by any interleaving of the native thread, the life-cycle callers (ABT_xstream_join / revive / free,
+one call at a time, by any ULT or external thread), cancel / get_state / push from anybody, exit by a ULT of the stream;
+any number of lives -/
+def Reach (s : Model.XsLife.St) : Prop := ∃ tr, Model.XsLife.machine.run Model.XsLife.init tr = some s
+
+/-- **ABT_xstream_join returns only when the native thread has parked**: when `xstream_join` returns (also the join
+inside ABT_xstream_free, also a second join of an already joined stream), and as long as no revive has started, the
+context state is WAITING, the native thread has left `thread_f` for good (it sits in the wait loop of
+xstream_context_thread_func, no restart pending), the public state is TERMINATED and the main scheduler's ULT is
+TERMINATED.  In particular a join cannot return on the strength of the public state alone: `thread_root_func`
+publishes TERMINATED while the context is still RUNNING. -/
+theorem join_returns_only_when_parked (s s' : Model.XsLife.St) (h : Reach s)
+    (hs : Model.XsLife.step s (.ret .join) = some s') :
+    s'.x.st = .waiting ∧ tInWaitLoop s'.x = true ∧ s'.x.owed = false ∧ s'.pub = true ∧ s'.mterm = true ∧
+    s'.npc = .out ∧ s'.x.cpc = .idle true ∧ s'.lpc = .idle := by
+  obtain ⟨tr, hr⟩ := h
+  have hi := inv_run tr s hr
+  have hi' := inv_step s _ s' hi hs
+  simp only [Model.XsLife.step] at hs
+  split at hs <;> simp only [Option.some.injEq, reduceCtorEq] at hs
+  rename_i hl
+  have hrel := hi.rel
+  rw [hl] at hrel
+  have hc : s.x.cpc = .idle true := by
+    cases hp : s.x.cpc with
+    | idle b => cases b <;> simp_all [rel, ccl]
+    | _ => simp_all [rel, ccl]
+  subst hs
+  have hj := joined_facts (s := { s with lpc := .idle }) hi' hc (Or.inl rfl)
+  exact ⟨hj.1, hj.2.1, hj.2.2.1, hj.2.2.2.1, hj.2.2.2.2.1, hj.2.2.2.2.2, hc, rfl⟩
+
+/-- the same as a state invariant: between a completed join and the next revive / free (`x.cpc = idle true` is
+Part 2's "the last context call was a join that returned") nothing moves -/
+theorem joined_stream_is_parked (s : Model.XsLife.St) (h : Reach s) (hl : s.lpc = .idle) (hc : s.x.cpc = .idle true) :
+    s.x.st = .waiting ∧ tInWaitLoop s.x = true ∧ s.pub = true ∧ s.mterm = true ∧ s.npc = .out := by
+  obtain ⟨tr, hr⟩ := h
+  have hj := joined_facts (inv_run tr s hr) hc (Or.inl hl)
+  exact ⟨hj.1, hj.2.1, hj.2.2.2.1, hj.2.2.2.2.1, hj.2.2.2.2.2⟩
+
+/-- **the context join is reached and can be entered**: when `xstream_join` gets to ABTD_xstream_context_join the main
+scheduler's ULT is TERMINATED and the native thread has passed its start-up assertion — the hypothesis Part 2 makes about
+its caller. -/
+theorem join_reaches_context_join (s : Model.XsLife.St) (h : Reach s) (hl : s.lpc = .jCtx)
+    (hc : ∃ b, s.x.cpc = .idle b) :
+    s.mterm = true ∧ s.x.tpc ≠ .start ∧ (Model.XsLife.step s (.ctx (.call .join))).isSome = true := by
+  obtain ⟨tr, hr⟩ := h
+  have hi := inv_run tr s hr
+  have hm : s.mterm = true := by simpa [joinOk, hl] using hi.join
+  have hst : s.x.tpc ≠ .start := by
+    intro hst
+    have hp := hi.pre
+    simp [preOk, nph, hst, hm] at hp
+  obtain ⟨b, hb⟩ := hc
+  refine ⟨hm, hst, ?_⟩
+  simp [Model.XsLife.step, ctxGuard, hl, cstep, actorOf, stepC, hb, hst]
+
+/-- **revive finds a parked context, however the stream terminated** (join request, ABT_xstream_cancel, a ULT calling
+ABT_xstream_exit — the theorem quantifies over all runs): after any completed join ABT_xstream_revive can be called;
+its check "main scheduler TERMINATED" passes (no ABT_ERR_INV_XSTREAM); when ABTD_xstream_context_revive, holding
+state_lock, is about to store RUNNING the state is WAITING and the native thread sleeps in (or is re-acquiring the
+mutex after a spurious wake-up from) pthread_cond_wait, so the signal that follows is not lost; the same holds for
+ABTD_xstream_context_free; and no ABTI_ASSERT of stream.c / thread.c / abtd_stream.c fails anywhere. -/
+theorem revive_finds_parked_context (s : Model.XsLife.St) (h : Reach s) :
+    (s.lpc = .idle → s.x.cpc = .idle true → (Model.XsLife.step s (.call .revive)).isSome = true) ∧
+    (s.lpc = .rChk → s.mterm = true) ∧
+    (s.x.cpc = .rStore ∨ s.x.cpc = .fStore →
+      s.x.st = .waiting ∧ s.x.owner = some .C ∧ (s.x.tpc = .blocked ∨ s.x.tpc = .woken) ∧ s.x.owed = false) ∧
+    s.fault = false ∧ s.x.fault = false := by
+  obtain ⟨tr, hr⟩ := h
+  have hi := inv_run tr s hr
+  have hx := ctx_facts hi
+  refine ⟨?_, ?_, ?_, hi.nofault, hx.1⟩
+  · intro hl hc
+    simp [Model.XsLife.step, hl, hc]
+  · intro hl
+    have hrel := hi.rel
+    rw [hl] at hrel
+    have hc : s.x.cpc = .idle true := by
+      cases hp : s.x.cpc with
+      | idle b => cases b <;> simp_all [rel, ccl]
+      | _ => simp_all [rel, ccl]
+    exact (joined_facts hi hc (Or.inr (Or.inr (Or.inr (Or.inl hl))))).2.2.2.2.1
+  · intro hc
+    have hj := hx.2.1 (by rcases hc with hc | hc <;> simp [cJoined, hc])
+    have hown : s.x.owner = some .C := hx.2.2.mp (by rcases hc with hc | hc <;> simp [cCrit, hc])
+    -- the thread cannot be inside its own critical section while the caller owns the mutex
+    have hm := (List.all_eq_true.mp chk_all) s.x hi.reach
+    simp only [Bool.and_eq_true] at hm
+    have hmu := hm.1.1.1.2
+    unfold chkMutex at hmu
+    simp only [Bool.and_eq_true, beq_iff_eq] at hmu
+    have ht : tCrit s.x = false := by
+      rw [hmu.1, hown]
+      decide
+    refine ⟨hj.1, hown, ?_, hj.2.2⟩
+    have hw := hj.2.1
+    unfold tInWaitLoop at hw
+    unfold tCrit at ht
+    cases hp : s.x.tpc <;> simp_all
+
+/-- **a revived stream runs, part 1 — nothing stale survives a revive**: from the moment ABT_xstream_revive publishes
+RUNNING (and likewise after creation) until somebody joins / cancels / exits the stream again, no FINISH or EXIT request
+is set on the main scheduler, no JOIN or CANCEL request on its ULT, the public state is RUNNING, the main scheduler's
+ULT is not TERMINATED, and the native thread is in (or on its way into) the scheduler loop — whatever happened in the
+previous lives (join; join again; cancel; exit; requests posted late by ABTI_xstream_check_events). -/
+theorem revived_stream_has_no_stale_request (s : Model.XsLife.St) (h : Reach s) (hq : s.cause = false) :
+    s.fin = false ∧ s.ext = false ∧ s.jreq = false ∧ s.creq = false ∧ s.pub = false ∧ s.mterm = false ∧
+    (s.npc = .out ∨ s.npc = .root ∨ s.npc = .sched) ∧
+    (Model.XsLife.step s .nStop = none) := by
+  obtain ⟨tr, hr⟩ := h
+  have hi := inv_run tr s hr
+  have hqq := hi.quiet
+  simp only [quietOk, hq, Bool.false_or, Bool.and_eq_true, Bool.not_eq_true', Bool.or_eq_true, decide_eq_true_eq] at hqq
+  obtain ⟨⟨⟨⟨⟨⟨⟨h1, h2⟩, h3⟩, h4⟩, h5⟩, h6⟩, _⟩, h8⟩ := hqq
+  refine ⟨h1, h2, h3, h4, h5, h6, by simpa [or_assoc] using h8, ?_⟩
+  simp [Model.XsLife.step, h1, h2]
+
+/-- `rPub` (the store of RUNNING in ABT_xstream_revive) is where that period starts -/
+theorem revive_starts_quiet_period (s s' : Model.XsLife.St) (hs : Model.XsLife.step s .rPub = some s') :
+    s'.cause = false ∧ s'.pub = false := by
+  simp only [Model.XsLife.step] at hs
+  split at hs <;> simp only [Option.some.injEq, reduceCtorEq] at hs
+  subst hs
+  exact ⟨rfl, rfl⟩
+
+/-- **a revived stream runs, part 2 — it pops work pushed later**: in that period, with no life-cycle call in progress
+and a unit in the pool (pushed at any time, e.g. long after the revive), steps of the native thread alone lead to the
+unit being run: finish the wake-up in xstream_context_thread_func, enter thread_f, start the main scheduler, pop.  No
+step of anybody else is needed and no step of the native thread on the way can end the scheduler. -/
+theorem revived_stream_runs (s : Model.XsLife.St) (h : Reach s) (hq : s.cause = false) (hl : s.lpc = .idle)
+    (hp : 0 < s.pending) :
+    ∃ tr s', (∀ e ∈ tr, isNative e = true) ∧ Model.XsLife.machine.run s tr = some s' ∧ s'.ran = s.ran + 1 := by
+  obtain ⟨tr, hr⟩ := h
+  exact native_runs_unit _ s (inv_run tr s hr) hq hl hp (Nat.le_refl _)
+
+/-- **ABT_xstream_get_state reports the life cycle**: the value read is the public state; it is TERMINATED only if
+somebody joined / cancelled / exited the stream in this life and the native thread is past its scheduler (about to
+return from, or outside, thread_f) — never while the scheduler can still run a unit; it is RUNNING whenever nobody
+joined / cancelled / exited the stream since create / revive, and while the scheduler is active; after a completed join
+and until the revive it is TERMINATED. -/
+theorem state_reports (s s' : Model.XsLife.St) (t : Bool) (h : Reach s)
+    (hs : Model.XsLife.step s (.getState t) = some s') :
+    s' = s ∧ t = s.pub ∧
+    (t = true → s.cause = true ∧ (s.npc = .out ∨ s.npc = .fin) ∧ Model.XsLife.step s .nRun = none) ∧
+    (s.cause = false → t = false) ∧
+    (s.npc ≠ .out → s.npc ≠ .fin → t = false) ∧
+    (s.lpc = .idle → s.x.cpc = .idle true → t = true) := by
+  obtain ⟨tr, hr⟩ := h
+  have hi := inv_run tr s hr
+  simp only [Model.XsLife.step] at hs
+  split at hs <;> simp only [Option.some.injEq, reduceCtorEq] at hs
+  rename_i hg
+  have hq := hi.quiet
+  have hn := hi.npc
+  refine ⟨hs.symm, hg.1, ?_, ?_, ?_, ?_⟩
+  · intro ht
+    have hp : s.pub = true := by rw [← hg.1]; exact ht
+    refine ⟨?_, ?_, ?_⟩
+    · cases hc : s.cause <;> simp_all [quietOk]
+    · cases hq2 : s.npc <;> simp_all [npcOk]
+    · cases hq2 : s.npc <;> simp_all [npcOk, Model.XsLife.step]
+  · intro hc
+    rw [hg.1]
+    simp_all [quietOk]
+  · intro h1 h2
+    rw [hg.1]
+    cases hq2 : s.npc <;> simp_all [npcOk]
+  · intro hl hc
+    rw [hg.1]
+    exact (joined_facts hi hc (Or.inl hl)).2.2.2.1
+
+/-- non-vacuity (cancel): a unit runs, ABT_xstream_cancel, the scheduler posts EXIT and stops, TERMINATED is published
+and seen by get_state; a join issued in that window stores REQ_JOIN and sleeps until the native thread has parked;
+revive; the restarted scheduler runs a unit pushed after the revive; nothing is stale, no assertion failed -/
+example :
+    let tr : List Model.XsLife.Ev :=
+      [.ctx (.tau .T), .nRoot, .push, .nRun, .cancel, .nLoadReq false true, .nSetExit, .nStop, .nMsf true, .nMTerm, .nPubTerm,
+       .getState true,
+       .call .join, .jFin, .jLoadM true,
+       .ctx (.call .join), .ctx (.lock .C), .ctx (.tau .C), .ctx (.store .C .reqJoin), .ctx (.wait .C),
+       .ctx .ret, .ctx (.lock .T), .ctx (.signal .T (some .C)), .ctx (.store .T .waiting), .ctx (.wait .T),
+       .ctx (.relock .C), .ctx (.tau .C), .ctx (.tau .C), .ctx (.unlock .C), .jPub, .ret .join,
+       .call .revive, .rLoadM true, .rReset, .rReady, .rClear, .rPush, .rPub,
+       .ctx (.call .revive), .ctx (.lock .C), .ctx (.store .C .running), .ctx (.signal .C (some .T)), .ctx (.unlock .C),
+       .ret .revive, .getState false,
+       .ctx (.relock .T), .ctx (.tau .T), .ctx (.unlock .T), .nRoot, .nLoadReq false false, .push, .nRun]
+    (Model.XsLife.machine.run Model.XsLife.init tr).map (fun s => (s.ran, s.pub, s.cause, s.npc, s.lpc))
+      = some (2, false, false, .sched, .idle) ∧
+    (Model.XsLife.machine.run Model.XsLife.init tr).map (fun s => (s.fin, s.ext, s.jreq, s.creq, s.fault, s.x.fault))
+      = some (false, false, false, false, false, false) := by
+  intro tr
+  constructor <;> decide
+
+/-- non-vacuity (exit by a ULT, join again, join request, free): a ULT calls ABT_xstream_exit with another unit still in
+the pool; the native thread parks before anybody joins (fast path of the context join); the stream is joined twice
+(the second join posts a FINISH request on the finished scheduler); revive; the left-over unit runs; ABT_xstream_free of
+the running stream: join request, FINISH posted by ABTI_xstream_check_events, termination, context join, context free,
+the native thread exits -/
+example :
+    let tr : List Model.XsLife.Ev :=
+      [.ctx (.tau .T), .nRoot, .push, .push, .nRunExit, .nLoadReq false true, .nSetExit, .nStop, .nMsf true, .nMTerm,
+       .nPubTerm, .ctx .ret, .ctx (.lock .T), .ctx (.tau .T), .ctx (.store .T .waiting), .ctx (.wait .T),
+       .call .join, .jFin, .jLoadM true, .ctx (.call .join), .ctx (.lock .C), .ctx (.tau .C), .ctx (.tau .C),
+       .ctx (.unlock .C), .jPub, .ret .join,
+       .call .join, .jFin, .jLoadM true, .ctx (.call .join), .ctx (.lock .C), .ctx (.tau .C), .ctx (.tau .C),
+       .ctx (.unlock .C), .jPub, .ret .join, .getState true,
+       .call .revive, .rLoadM true, .rReset, .rReady, .rClear, .rPush, .rPub,
+       .ctx (.call .revive), .ctx (.lock .C), .ctx (.store .C .running), .ctx (.signal .C (some .T)), .ctx (.unlock .C),
+       .ret .revive,
+       .ctx (.relock .T), .ctx (.tau .T), .ctx (.unlock .T), .nRoot, .nRun,
+       .call .free, .jFin, .jLoadM false, .jSetJ, .nLoadReq true false, .nSetFin, .nStop, .nMsf true, .nMTerm, .jLoadM true,
+       .nPubTerm, .ctx .ret, .ctx (.lock .T), .ctx (.tau .T), .ctx (.store .T .waiting), .ctx (.wait .T),
+       .ctx (.call .join), .ctx (.lock .C), .ctx (.tau .C), .ctx (.tau .C), .ctx (.unlock .C), .jPub,
+       .ctx (.call .free), .ctx (.lock .C), .ctx (.store .C .reqTerminate), .ctx (.signal .C (some .T)), .ctx (.unlock .C),
+       .ctx (.relock .T), .ctx (.tau .T), .ctx (.unlock .T), .ctx .pjoin, .ret .free]
+    (Model.XsLife.machine.run Model.XsLife.init tr).map (fun s => (s.ran, s.pending, s.pub, s.npc))
+      = some (2, 0, true, .out) ∧
+    (Model.XsLife.machine.run Model.XsLife.init tr).map (fun s => (s.lpc, s.x.tpc, s.fault, s.x.fault))
+      = some (.freed, .done, false, false) := by
+  intro tr
+  constructor <;> decide
+
+/-- the hypotheses of `revived_stream_runs` are met by a reachable state in which the revived thread has not even
+re-acquired its mutex yet -/
+example : ∃ s, Reach s ∧ s.cause = false ∧ s.lpc = .idle ∧ 0 < s.pending ∧ s.npc = .out ∧ s.x.tpc = .woken :=
+  ⟨_, ⟨[.ctx (.tau .T), .nRoot, .cancel, .nLoadReq false true, .nSetExit, .nStop, .nMsf true, .nMTerm, .nPubTerm,
+        .ctx .ret, .ctx (.lock .T), .ctx (.tau .T), .ctx (.store .T .waiting), .ctx (.wait .T),
+        .call .join, .jFin, .jLoadM true, .ctx (.call .join), .ctx (.lock .C), .ctx (.tau .C), .ctx (.tau .C),
+        .ctx (.unlock .C), .jPub, .ret .join,
+        .call .revive, .rLoadM true, .rReset, .rReady, .rClear, .rPush, .rPub,
+        .ctx (.call .revive), .ctx (.lock .C), .ctx (.store .C .running), .ctx (.signal .C (some .T)), .ctx (.unlock .C),
+        .ret .revive, .push], rfl⟩, by decide⟩
+
+/-- **rejected: the early-return join**.  After cancel, with TERMINATED published and visible but the native thread
+still inside thread_f (context RUNNING), a join that has seen the main scheduler TERMINATED cannot return: it is at the
+context join.  Neither `ret join` nor a revive is a step there — the history "join returns at once because the public
+state is TERMINATED; revive" is not a run of the model. -/
+theorem early_return_join_rejected :
+    let pre : List Model.XsLife.Ev :=
+      [.ctx (.tau .T), .nRoot, .cancel, .nLoadReq false true, .nSetExit, .nStop, .nMsf true, .nMTerm, .nPubTerm,
+       .getState true, .call .join, .jFin, .jLoadM true]
+    (Model.XsLife.machine.run Model.XsLife.init pre).map (fun s => (s.pub, s.x.st, s.x.tpc, s.lpc))
+        = some (true, .running, .run, .jCtx) ∧
+    Model.XsLife.machine.run Model.XsLife.init (pre ++ [.ret .join]) = none ∧
+    Model.XsLife.machine.run Model.XsLife.init (pre ++ [.call .revive]) = none ∧
+    Model.XsLife.machine.run Model.XsLife.init (pre ++ [.ret .join, .call .revive]) = none := by
+  intro pre
+  decide
+
+/-- **rejected: a stale FINISH after revive**.  A revive that skips the reset of the scheduler's requests (`rReset`) is
+not a run: after "join; join again" the FINISH bit posted by the second join on the finished scheduler is still set
+when `rReady` would be next. -/
+theorem revive_without_reset_rejected :
+    let pre : List Model.XsLife.Ev :=
+      [.ctx (.tau .T), .nRoot, .cancel, .nLoadReq false true, .nSetExit, .nStop, .nMsf true, .nMTerm, .nPubTerm,
+       .ctx .ret, .ctx (.lock .T), .ctx (.tau .T), .ctx (.store .T .waiting), .ctx (.wait .T),
+       .call .join, .jFin, .jLoadM true, .ctx (.call .join), .ctx (.lock .C), .ctx (.tau .C), .ctx (.tau .C),
+       .ctx (.unlock .C), .jPub, .ret .join, .call .revive, .rLoadM true]
+    (Model.XsLife.machine.run Model.XsLife.init pre).map (fun s => (s.fin, s.ext, s.lpc)) = some (true, true, .rReset) ∧
+    Model.XsLife.machine.run Model.XsLife.init (pre ++ [.rReady]) = none := by
+  intro pre
+  decide
+
+end Life
 
 end ArgoVerif.Props.C17
